@@ -2,9 +2,9 @@
   Driver family `blk` (C13): the blocking event machine `Ferrous.Blk`.
 
   One session = one line stream.  Keys and elements travel as lower-case hex (`-` = empty).
-    cfg <npe> <wap> <uas> <rit> <ddk> <dra> <nbh> <dfb> <xat> -> ok   quirk switches (0/1): notifyPerElement wakeAtPush
+    cfg <npe> <wap> <uas> <rit> <ddk> <dra> <nbh> <dfb> <xat> <wcc> -> ok   quirk switches (0/1): notifyPerElement wakeAtPush
                                                    unregisterAllOnServe refuseBlockingInTx dedupKeys drainAll
-                                                   noticeBlockedHangup deferBatchWhenBlocked execAtomic; resets the state
+                                                   noticeBlockedHangup deferBatchWhenBlocked execAtomic wakeChecksClient; resets the state
     reset                              -> ok
     ev wakeups                         -> <A> <tags> <F> <ftags> <outs>
     ev timeouts <now>                  -> <A> <tags> <F> <ftags> <outs>
@@ -223,15 +223,16 @@ def topSeqTagsF (q : Quirks) (now : Nat) (c : Conn) : List Cmd → State → Lis
 
 def eventTagsF (q : Quirks) (s : State) : Event → List String
   | .conn c now cmds =>
+    (if calmReg s then [] else ["batch-before-hangup-noticed"]) ++
     if canRun s c then topSeqTagsF q now c ((s.conns c).pending ++ cmds) (setConn s c fun cs => { cs with pending := [] }) else []
-  | .hangup c => if (s.conns c).blocked.isSome then ["hangup-blocked"] else []
+  | .hangup c => if (s.conns c).blocked.isSome && !(q.noticeBlockedHangup && q.wakeChecksClient) then ["hangup-blocked"] else []
   | _ => []
 
 def step (ss : Sess) (ws : List String) : Sess × String :=
   match ws with
   | "cfg" :: flags =>
     match flags.mapM readBool with
-    | some [a, b, c, d, e, f, g, h, i] => ({ q := ⟨a, b, c, d, e, f, g, h, i⟩, s := {} }, "ok")
+    | some [a, b, c, d, e, f, g, h, i, j] => ({ q := ⟨a, b, c, d, e, f, g, h, i, j⟩, s := {} }, "ok")
     | _ => (ss, "bad-op")
   | ["reset"] => ({ ss with s := {} }, "ok")
   | "ev" :: rest =>
